@@ -355,6 +355,15 @@ func hostilePhases(which string) []*fw.Phase {
 					fw.Try(func() { p.Unpack(bytes.NewReader(d1), first) })
 				}
 			}
+			if idx%3 == 1 {
+				// ... and one more call there whose stream breaks after
+				// directories and links have been extracted
+				big := strings.Repeat("0123456789abcdef", 4000)
+				e1b := []gen.TarEntry{{Name: "conf", Type: "dir", Mode: 0750, Mtime: 1500000000}, {Name: "conf/inner", Type: "link", Link: "../a", Mode: 0777}, {Name: "cur", Type: "link", Link: "conf", Mode: 0777}, {Name: "conf/big", Type: "file", Mode: 0600, Body: big}}
+				if d1, err := gen.BuildTarGz(e1b, ""); err == nil {
+					fw.Try(func() { p.Unpack(&failingReader{r: bytes.NewReader(d1), left: len(d1) / 2}, first) })
+				}
+			}
 			// the second archive points at the zones that were legitimate for the first destination
 			rel := func(target string) string {
 				t, _ := filepath.Rel(b.Dst(), target)
@@ -386,7 +395,93 @@ func hostilePhases(which string) []*fw.Phase {
 			return res
 		},
 	}
-	return []*fw.Phase{singles, pairs, triples, coopTriples, coopRandom, random, links, distilled, reused, faults}
+	// the same destination is unpacked into twice (second call with the same
+	// Packer or a fresh one): whatever the first call legitimately left there
+	// - also links to allow-listed places outside - the second call neither
+	// writes through it nor may it leave a link that leads outside
+	second := [][]gen.TarEntry{
+		{{Name: "x", Type: "file", Mode: 0644, Body: "OVERWRITE"}},
+		{{Name: "x", Type: "dir", Mode: 0700, Mtime: 1400000000}},
+		{{Name: "xd", Type: "dir", Mode: 0700, Mtime: 1400000000}, {Name: "xd/new", Type: "file", Mode: 0644, Body: "N"}},
+		{{Name: "xd/f", Type: "file", Mode: 0600, Body: "OVERWRITE"}},
+		{{Name: "cur", Type: "link", Link: "q/b/top/../secret", Mode: 0777}},
+		{{Name: "x", Type: "link", Link: "q/b/top/../sib/keep", Mode: 0777}},
+		{{Name: "cur/b/new", Type: "file", Mode: 0644, Body: "N"}},
+		{{Name: "q/b/top", Type: "file", Mode: 0644, Body: "N"}, {Name: "cur", Type: "file", Mode: 0644, Body: "N"}},
+	}
+	twice := &fw.Phase{
+		Name: "same-destination-unpacked-into-twice", Chroot: true, Exhaustive: true,
+		N: func(string) int { return len(second) * nv * 2 * 2 },
+		Run: func(env *fw.Env, idx int) fw.Result {
+			k := idx
+			pick := func(n int) int { v := k % n; k /= n; return v }
+			e2 := second[pick(len(second))]
+			b := arenaVariants[pick(nv)]
+			samePacker := pick(2) == 0
+			withAllow := pick(2) == 0
+			if withAllow {
+				b.Allow = []string{"../shared"}
+			}
+			buildArena(b)
+			mustWrite(b.Parent+"/shared/f", "OUTSIDE-shared-f", 0644)
+			mustWrite(b.Parent+"/shared/d/f", "OUTSIDE-shared-d-f", 0644)
+			mk := func() *slug.Packer {
+				var opts []slug.PackerOption
+				for _, al := range b.Allow {
+					opts = append(opts, slug.AllowSymlinkTarget(al))
+				}
+				p, _ := slug.NewPacker(opts...)
+				return p
+			}
+			p := mk()
+			e1 := []gen.TarEntry{{Name: "q/b", Type: "dir", Mode: 0755}, {Name: "q/b/top", Type: "link", Link: "../..", Mode: 0777}, {Name: "cur", Type: "link", Link: "q", Mode: 0777}}
+			if withAllow {
+				e1 = append(e1, gen.TarEntry{Name: "x", Type: "link", Link: "../shared/f", Mode: 0777}, gen.TarEntry{Name: "xd", Type: "link", Link: "../shared/d", Mode: 0777})
+			}
+			if d1, err := gen.BuildTarGz(e1, ""); err == nil {
+				fw.Try(func() { p.Unpack(bytes.NewReader(d1), b.Dst()) })
+			}
+			if !samePacker {
+				p = mk()
+			}
+			hc := hostileCase{Arena: b, Entries: e2}
+			data, err := gen.BuildTarGz(e2, "")
+			if err != nil {
+				return fw.Result{Class: "unbuildable-archive"}
+			}
+			obs := runUnpackWith(p, b, data, nil)
+			res := judgeHostile(which, hc, obs)
+			if m, ok := res.Case.(map[string]interface{}); ok {
+				m["first_archive_into_the_same_destination"] = entryStrings(e1)
+				m["same_packer"] = samePacker
+			}
+			return res
+		},
+	}
+	// several links of one archive are led outside by another link; every
+	// one of them has to go, whatever else the archive holds
+	several := &fw.Phase{
+		Name: "several-links-led-outside-in-one-archive", Chroot: true, Exhaustive: true,
+		N: func(string) int { return 4 * 3 * nv },
+		Run: func(env *fw.Env, idx int) fw.Result {
+			n := 1 + idx%4
+			tail := (idx / 4) % 3
+			b := arenaVariants[(idx/12)%nv]
+			es := []gen.TarEntry{{Name: "q/b", Type: "dir", Mode: 0755}, {Name: "q/b/top", Type: "link", Link: "../..", Mode: 0777}}
+			targets := []string{"q/b/top/../secret", "q/b/top/../sib/keep", "q/b/top/../ro-file", "q/b/top/../sib"}
+			for i := 0; i < n; i++ {
+				es = append(es, gen.TarEntry{Name: fmt.Sprintf("e%d", i), Type: "link", Link: targets[i], Mode: 0777})
+			}
+			switch tail {
+			case 1:
+				es = append(es, gen.TarEntry{Name: "../refused", Type: "file", Mode: 0644, Body: "x"})
+			case 2:
+				es = append(es, gen.TarEntry{Name: "pipe", Type: "fifo", Mode: 0644})
+			}
+			return runHostile(which, hostileCase{Arena: b, Entries: es})
+		},
+	}
+	return []*fw.Phase{singles, pairs, triples, coopTriples, coopRandom, random, links, distilled, reused, twice, several, faults}
 }
 
 func init() {
